@@ -6,6 +6,8 @@ import E2P.Lemmas.LookupCols
 import Mathlib.Data.List.Basic
 import Mathlib.Data.List.Nodup
 import E2P.Props.C14
+import E2P.Lemmas.LexSpell
+import E2P.Generated.Grammar
 namespace E2P.C02
 open E2P
 
@@ -137,5 +139,46 @@ theorem uid_injective (s c r s' c' r' : Nat) (h : uidText s c r = uidText s' c' 
 example : getMatrix [[[.int 11, .int 12, .int 13], [.int 21, .int 22]]] 0 1 0 2 2 =
     [[.int 12, .int 13], [.int 22, .blank], [.blank, .blank]] := by rfl
 example : unquoteTitle "it''s".toList = "it's".toList ∧ quoteTitle "it's".toList = "it''s".toList := by decide +kernel
+
+/-! ### every way of writing a reference is read back as written (the regex scanners of the lexer) -/
+
+open E2P.Lex in
+/-- **A cell reference is read back as written**: for every prefix form (none, `Title!`, `'Ti''tle'!` with any characters in a quoted
+    title), every combination of `$` markers, every non-empty run of upper-case column letters and every non-empty run of row
+    digits, followed by anything the token's lookahead admits, the scanner of `CellIdentifierToken` returns that title (the formula's
+    own sheet without a prefix), those letters, those digits, and leaves exactly the rest. -/
+theorem cell_reference_read_back (p : Prefix) (hp : p.wf) (ac ar : Bool) (col row rest : List Char)
+    (hc : col ≠ []) (hcu : ∀ x ∈ col, isUp x = true) (hr : row ≠ []) (hrd : ∀ x ∈ row, isDigit x = true)
+    (hrest : cellRestOk rest = true) (hf : p = .own → BareFollow rest) :
+    cellTok (spellCell p ac col ar row ++ rest) = some (⟨p.title, col, row⟩, rest) :=
+  cellTok_spell p hp ac ar col row rest hc hcu hr hrd hrest hf
+
+open E2P.Lex in
+/-- **An area is read back as written**: rectangles, row and column ranges, whole-column areas (a corner without row digits), any
+    prefix form and `$` markers; the scanner of `MatrixOfCellIdentifiersToken` returns both corners on the named sheet. -/
+theorem area_reference_read_back (p : Prefix) (hp : p.wf) (ac1 ar1 ac2 ar2 : Bool) (col1 col2 : List Char) (row1 row2 : Option (List Char))
+    (rest : List Char) (hc1 : col1 ≠ []) (hu1 : ∀ x ∈ col1, isUp x = true) (hc2 : col2 ≠ []) (hu2 : ∀ x ∈ col2, isUp x = true)
+    (hw1 : RowWf row1) (hw2 : RowWf row2) (hf : AreaFollow rest) :
+    matrixTok (spellArea p ac1 col1 ar1 row1 ac2 col2 ar2 row2 ++ rest) =
+      some ((⟨p.title, col1, row1.getD []⟩, ⟨p.title, col2, row2.getD []⟩), rest) :=
+  matrixTok_spell p hp ac1 ar1 ac2 ar2 col1 col2 row1 row2 rest hc1 hu1 hc2 hu2 hw1 hw2 hf
+
+/-- the letters of every column number qualify as column letters of a spelling (so the two theorems above cover columns A..XFD and beyond) -/
+theorem column_letters_qualify (n : Nat) (h : 1 ≤ n) : colLetters n ≠ [] ∧ ∀ x ∈ colLetters n, Lex.isUp x = true := by
+  refine ⟨E2P.C14.col_letters_ne_nil n h, ?_⟩
+  intro x hx
+  have := E2P.C14.col_letters_upper n
+  rw [List.all_eq_true] at this
+  exact this x hx
+
+/-- the scanners these theorems are about are the ones of this run: the regex sources of the three reference tokens in the
+    repository are the ones the scanners were written for (regenerated table) -/
+theorem reference_regexes_pinned :
+    (Lex.pinned.take 3).all (fun e => E2P.Generated.lexerRegexes.contains e) = true := by decide +kernel
+
+/-- non-vacuity: `'it''s'!$AB$12` followed by `+1`, and the whole-column area `Data!A:$C` followed by `)` -/
+example : Lex.cellTok "'it''s'!$AB$12+1".toList = some (⟨some "it's".toList, "AB".toList, "12".toList⟩, "+1".toList) := by decide +kernel
+example : Lex.matrixTok "Data!A:$C)".toList = some ((⟨some "Data".toList, ['A'], []⟩, ⟨some "Data".toList, ['C'], []⟩), [')']) := by decide +kernel
+example : Lex.spellCell (.quoted "it's".toList) true "AB".toList true "12".toList = "'it''s'!$AB$12".toList := by decide +kernel
 
 end E2P.C02
